@@ -55,6 +55,17 @@ def evaluate(camp):
                 if run is not None and run.solver.best_nets is not None and any(a is b for a, b in zip(run.solver.best_nets, run.solver.nets)):
                     bad.append(dict(ctx, violated='best_nets aliases the live networks (not a frozen copy)'))
                 prev = d
+        # the frozen copy is a copy of the WHOLE network (parameters and buffers) as it was when the loss was computed: the
+        # scripted networks carry a buffer `seen` = parameter value at their most recent forward pass, so in the stored
+        # best networks buffer and parameter must agree (except in the known closure/no-validation configuration, where the
+        # copy is taken after the step)
+        if run is not None:
+            for bw, bseen, okind, nv, call, ep in run.best_obs:
+                if bw != bseen and not (okind == 'closure' and nv == 0):
+                    bad.append(dict(script=lines, kw=kw, fit_call=call, epoch=ep, violated='best_nets is not a copy of the networks as they were when '
+                                    'the loss was computed: its buffer (parameter value at the last forward pass) differs from its parameter',
+                                    best_parameter=bw, best_buffer=bseen))
+                    break
     return bad, known
 
 
